@@ -5,7 +5,7 @@ CONSTANTS
   SubmitFail <- MCSubmitFail
   Faults <- MCFaults
   StopAt <- NoStop
-  CmdBudget = 0
+  CmdBudget = 2
 INVARIANT TypeOK
 INVARIANT C01_SubmitOnlyIfSatisfied
 INVARIANT C01_OnSequenceInBounds
@@ -25,7 +25,10 @@ INVARIANT C11_RetainedOnlyIfIncomplete
 INVARIANT C31_NoOverlap
 INVARIANT C31_NoClashAtPrepare
 INVARIANT C26_QueuedFlagMatchesQueue
-INVARIANT C09_ImpliedOutputsSettled
+INVARIANT C09_ImpliedOutputs
 PROPERTY C09_Lifecycle
 PROPERTY C04_ReleaseStep
 PROPERTY C04_ReleaseWithinFormula
+INVARIANT C06_HeldNeverPrepared
+INVARIANT C06_HoldListMatchesFlags
+INVARIANT C06_BeyondHoldPointHeld
